@@ -598,39 +598,58 @@ theorem processPuback_fc (s : Server) (i id : Nat)
     exact ((Fc11G.refl s).set i c' hg).upd rfl rfl
 
 theorem processPubrec_fc (s : Server) (i id rc : Nat)
-    (hg1 : P (getObj s i) → P (flDelete (getObj s i) id).1)
-    (hg2 : P (getObj s i) → P (flSet (decRecv (getObj s i))
-      { type := 6, id := id, qos := 1, reasonCode := 0, created := NOW, expiry := NOW + s.caps.maxMessageExpiry }).1) :
+    (hg : if (rc ≥ 0x80 || !reasonValid 5 rc) = true then P (getObj s i) → P (flDelete (getObj s i) id).1
+      else P (getObj s i) → P (flSet (decRecv (getObj s i))
+        { type := 6, id := id, qos := 1, reasonCode := 0, created := NOW, expiry := NOW + s.caps.maxMessageExpiry }).1) :
     Fc11G P s (processPubrec s i id rc).1 := by
   unfold processPubrec
   extract_lets +onlyGivenNames c
   split
   · rw [ackRes_fst]; exact Fc11G.refl s
   · split
-    · extract_lets +onlyGivenNames c'
-      exact ((Fc11G.refl s).set i c' hg1).upd rfl rfl
-    · extract_lets +onlyGivenNames ack c' s1
-      have hs1 : Fc11G P s s1 := (Fc11G.refl s).set i c' hg2
+    · rename_i hb
+      rw [if_pos hb] at hg
+      extract_lets +onlyGivenNames c'
+      exact ((Fc11G.refl s).set i c' hg).upd rfl rfl
+    · rename_i hb
+      rw [if_neg hb] at hg
+      extract_lets +onlyGivenNames ack c' s1
+      have hs1 : Fc11G P s s1 := (Fc11G.refl s).set i c' hg
       split <;> exact hs1
 
+theorem fc11_dead_flSet (c : Client) (m : Msg) : dead (flSet c m).1 = dead c := by
+  have h := SessEq.flSet c m
+  unfold dead
+  rw [← h.isOpen, ← h.peerGone]
+
 theorem processPubrel_fc (s : Server) (i id rc : Nat)
-    (hg1 : P (getObj s i) → P (flDelete (getObj s i) id).1)
-    (hg2 : P (getObj s i) → P (flSet (getObj s i)
-      { type := 7, id := id, reasonCode := 0, created := NOW, expiry := NOW + s.caps.maxMessageExpiry }).1)
-    (hg3 : P (getObj s i) → P (flDelete (incSend (incRecv (flSet (getObj s i)
-      { type := 7, id := id, reasonCode := 0, created := NOW, expiry := NOW + s.caps.maxMessageExpiry }).1)) id).1) :
+    (hg : if (rc ≥ 0x80 || !reasonValid 6 rc) = true then P (getObj s i) → P (flDelete (getObj s i) id).1
+      else if dead (getObj s i) = true then P (getObj s i) → P (flSet (getObj s i)
+        { type := 7, id := id, reasonCode := 0, created := NOW, expiry := NOW + s.caps.maxMessageExpiry }).1
+      else P (getObj s i) → P (flDelete (incSend (incRecv (flSet (getObj s i)
+        { type := 7, id := id, reasonCode := 0, created := NOW, expiry := NOW + s.caps.maxMessageExpiry }).1)) id).1) :
     Fc11G P s (processPubrel s i id rc).1 := by
   unfold processPubrel
   extract_lets +onlyGivenNames c
   split
   · rw [ackRes_fst]; exact Fc11G.refl s
   · split
-    · extract_lets +onlyGivenNames c'
-      exact ((Fc11G.refl s).set i c' hg1).upd rfl rfl
-    · extract_lets +onlyGivenNames ack c1 s1
+    · rename_i hb
+      rw [if_pos hb] at hg
+      extract_lets +onlyGivenNames c'
+      exact ((Fc11G.refl s).set i c' hg).upd rfl rfl
+    · rename_i hb
+      rw [if_neg hb] at hg
+      extract_lets +onlyGivenNames ack c1 s1
       split
-      · exact (Fc11G.refl s).set i c1 hg2
-      · extract_lets +onlyGivenNames o c2
+      · rename_i hd
+        have hd' : dead (getObj s i) = true := by rw [← fc11_dead_flSet c ack]; exact hd
+        rw [if_pos hd'] at hg
+        exact (Fc11G.refl s).set i c1 hg
+      · rename_i hd
+        have hd' : ¬ dead (getObj s i) = true := by rw [← fc11_dead_flSet c ack]; exact hd
+        rw [if_neg hd'] at hg
+        extract_lets +onlyGivenNames o c2
         split
         rename_i c3 ok heq
         extract_lets +onlyGivenNames s2
@@ -641,7 +660,7 @@ theorem processPubrel_fc (s : Server) (i id rc : Nat)
           by_cases hk : k = i
           · subst hk
             refine fc11_get_set (Q := P) (fun _ => ?_) (fun hlt => ?_)
-            · rw [hc3]; exact hg3 x
+            · rw [hc3]; exact hg x
             · have : ¬ k < s.objs.length := by rw [← setObj_length s k c1]; exact hlt
               rw [getObj_setObj_ge s k c1 this]; exact x
           · rw [getObj_setObj_ne _ i k _ hk, getObj_setObj_ne _ i k _ hk]; exact x
@@ -948,5 +967,116 @@ theorem processPublish_fc (L : Fc11Laws P) (s : Server) (i : Nat) (qos : Nat) (d
                   have := publishToSubscribers_fc L s7 pk4 hpk4
                   rw [heq] at this
                   exact hs7.trans this
+
+/-! ### one inbound packet -/
+
+/-- **the local condition on an inbound packet**: the update the handler makes to the acting client's own records
+    and quotas keeps `P` (per branch of the handler). Trivial for SUBSCRIBE, UNSUBSCRIBE, PINGREQ, DISCONNECT. -/
+def fc11PkOK (P : Client → Prop) (s : Server) (i : Nat) : InPk → Prop
+  | .publish _ _ _ id _ _ _ _ => P (getObj s i) → P (flDelete (getObj s i) id).1
+  | .puback id _ => P (getObj s i) → P (incSend (flDelete (getObj s i) id).1)
+  | .pubrec id rc =>
+    if (rc ≥ 0x80 || !reasonValid 5 rc) = true then P (getObj s i) → P (flDelete (getObj s i) id).1
+    else P (getObj s i) → P (flSet (decRecv (getObj s i))
+      { type := 6, id := id, qos := 1, reasonCode := 0, created := NOW, expiry := NOW + s.caps.maxMessageExpiry }).1
+  | .pubrel id rc =>
+    if (rc ≥ 0x80 || !reasonValid 6 rc) = true then P (getObj s i) → P (flDelete (getObj s i) id).1
+    else if dead (getObj s i) = true then P (getObj s i) → P (flSet (getObj s i)
+      { type := 7, id := id, reasonCode := 0, created := NOW, expiry := NOW + s.caps.maxMessageExpiry }).1
+    else P (getObj s i) → P (flDelete (incSend (incRecv (flSet (getObj s i)
+      { type := 7, id := id, reasonCode := 0, created := NOW, expiry := NOW + s.caps.maxMessageExpiry }).1)) id).1
+  | .pubcomp id _ => P (getObj s i) → P (flDelete (incSend (incRecv (getObj s i))) id).1
+  | _ => True
+
+instance fc11PkOK_dec (P : Client → Prop) [DecidablePred P] (s : Server) (i : Nat) (pk : InPk) :
+    Decidable (fc11PkOK P s i pk) := by
+  cases pk <;> unfold fc11PkOK <;> infer_instance
+
+theorem receivePacket_fc (L : Fc11Laws P) (s : Server) (i : Nat) (pk : InPk) (hwf : AllWF s)
+    (hst : (∃ id si fs, pk = .subscribe id si fs) → ∀ e ∈ s.rmsgs, fc11MsgOK e.2) (hg : fc11PkOK P s i pk) : Fc11G P s (receivePacket s i pk).1 := by
+  unfold receivePacket
+  extract_lets +onlyGivenNames c r
+  have hr : Fc11G P s r.1 ∧ Good s r.1 := by
+    simp only [r]
+    split
+    · split
+      · exact ⟨Fc11G.refl s, Good.refl s⟩
+      · exact ⟨processPublish_fc L _ _ _ _ _ _ _ _ _ _ hg, processPublish_good ..⟩
+    · split
+      · exact ⟨Fc11G.refl s, Good.refl s⟩
+      · exact ⟨processSubscribe_fc L _ _ _ _ _ (hst ⟨_, _, _, rfl⟩), processSubscribe_good ..⟩
+    · split
+      · exact ⟨Fc11G.refl s, Good.refl s⟩
+      · exact ⟨processUnsubscribe_fc L .., processUnsubscribe_good ..⟩
+    · exact ⟨processPuback_fc _ _ _ hg, processPuback_good ..⟩
+    · exact ⟨processPubrec_fc _ _ _ _ hg, processPubrec_good ..⟩
+    · exact ⟨processPubrel_fc _ _ _ _ hg, processPubrel_good ..⟩
+    · exact ⟨processPubcomp_fc _ _ _ hg, processPubcomp_good ..⟩
+    · split <;> exact ⟨Fc11G.refl s, Good.refl s⟩
+    · exact ⟨processDisconnect_fc L .., processDisconnect_good ..⟩
+  generalize r = r' at hr
+  split
+  · rename_i s1 o
+    split
+    rename_i s2 o2 heq
+    have := nextImmediate_fc L s1 i (hr.2.wf hwf)
+    rw [heq] at this
+    exact hr.1.trans this
+  · rename_i s1 o code
+    split
+    · split
+      rename_i s2 o2 heq
+      have := disconnectClient_fc L s1 i code
+      rw [heq] at this
+      exact hr.1.trans this
+    · exact hr.1
+
+theorem recvOn_fc (L : Fc11Laws P) (s : Server) (c : Nat) (pk : InPk) (b : Bool) (hwf : WF s)
+    (hst : ∀ e ∈ s.rmsgs, fc11MsgOK e.2)
+    (hg : ∀ i, assocGet s.connOf c = some i → fc11PkOK P s i pk) : Fc11G P s (recvOn s c pk b).1 := by
+  unfold recvOn
+  split
+  · exact Fc11G.refl s
+  · rename_i i hc
+    split
+    · exact Fc11G.refl s
+    · split
+      rename_i s1 o e heq
+      have h1 := receivePacket_fc L s i pk hwf.allWF (fun _ => hst) (hg i hc)
+      rw [heq] at h1
+      have w1 : WF s1 := by
+        have := receivePacket_wf s i pk hwf
+        rw [heq] at this; exact this
+      split
+      · split
+        rename_i s2 o2 hd
+        have := detach_fc L s1 i true w1
+        rw [hd] at this
+        exact h1.trans this
+      · split
+        · split
+          rename_i s2 o2 hd
+          have := detach_fc L s1 i false w1
+          rw [hd] at this
+          exact h1.trans this
+        · split
+          · split
+            rename_i s2 o2 e2 heq2
+            have h2 := receivePacket_fc L s1 i .pingreq w1.allWF
+              (fun h => by obtain ⟨_, _, _, h⟩ := h; cases h) trivial
+            · rw [heq2] at h2
+              have w2 : WF s2 := by
+                have := receivePacket_wf s1 i .pingreq w1
+                rw [heq2] at this; exact this
+              extract_lets +onlyGivenNames o2f
+              have h12 : Fc11G P s s2 := h1.trans h2
+              split
+              · split
+                rename_i s3 o3 hd
+                have := detach_fc L s2 i true w2
+                rw [hd] at this
+                exact h12.trans this
+              · exact h12
+          · exact h1
 
 end Mochi.Broker
